@@ -136,7 +136,7 @@ mod run {
             let me = std::thread::current().id();
             let inst = INST.with(Cell::get);
             if name == "ctl.send" && inst != 99 {
-                // what the kernel says just before the predecessor is told: sockets in LISTEN state on each port
+                // what the kernel says just before the predecessor is told: sockets in listening state on each port
                 for (ix, cnt) in listening_sockets(&self.ports).into_iter().enumerate() {
                     self.note("h.lsn", if cnt < 0 { -1 } else { (ix as i64) * 1000 + cnt });
                 }
@@ -214,32 +214,37 @@ mod run {
         }
     }
 
-    /// number of TCP sockets in LISTEN state on each of the ports (both families), from /proc/net/tcp{,6}; -1: unreadable
+    /// number of this process' TCP sockets in listening state (SO_ACCEPTCONN) on each of the ports, both families: every
+    /// instance of the chain lives in this process.  (/proc/net/tcp would say the same for the whole machine, but reading it
+    /// takes seconds when the machine has many sockets.)  -1: /proc/self/fd unreadable
     fn listening_sockets(ports: &[u16]) -> Vec<i64> {
-        let needles: Vec<String> = ports.iter().map(|p| format!(":{p:04X}")).collect();
+        use std::os::fd::BorrowedFd;
+        let dir = match std::fs::read_dir("/proc/self/fd") {
+            Ok(d) => d,
+            Err(_) => return vec![-1; ports.len()],
+        };
         let mut n = vec![0i64; ports.len()];
-        let mut read = false;
-        for f in ["/proc/net/tcp", "/proc/net/tcp6"] {
-            if let Ok(text) = std::fs::read_to_string(f) {
-                read = true;
-                for line in text.lines().skip(1) {
-                    let mut it = line.split_whitespace();
-                    let (_sl, local, _remote, st) = (it.next(), it.next().unwrap_or(""), it.next(), it.next().unwrap_or(""));
-                    if st == "0A" {
-                        for (k, needle) in needles.iter().enumerate() {
-                            if local.ends_with(needle.as_str()) {
-                                n[k] += 1;
-                            }
-                        }
-                    }
+        for e in dir.flatten() {
+            let fd: i32 = match e.file_name().to_str().and_then(|s| s.parse().ok()) {
+                Some(fd) => fd,
+                None => continue,
+            };
+            if !std::fs::read_link(e.path()).map(|l| l.to_string_lossy().starts_with("socket:")).unwrap_or(false) {
+                continue;
+            }
+            // read-only queries on a descriptor that may be closed (or reused) by now: they fail or describe another socket
+            let b = unsafe { BorrowedFd::borrow_raw(fd) };
+            let s = socket2::SockRef::from(&b);
+            if !s.is_listener().unwrap_or(false) {
+                continue;
+            }
+            if let Some(port) = s.local_addr().ok().and_then(|a| a.as_socket()).map(|a| a.port()) {
+                if let Some(k) = ports.iter().position(|p| *p == port) {
+                    n[k] += 1;
                 }
             }
         }
-        if read {
-            n
-        } else {
-            vec![-1; ports.len()]
-        }
+        n
     }
 
     // ---- ports -------------------------------------------------------------------------------------
